@@ -1054,7 +1054,7 @@ theorem occN_le_units (units : List (UnitM N)) (row : List (N × List HI)) (i : 
             intro e; subst e; simp [cntI] at hc
           obtain ⟨u0, hu0, hname⟩ := hnames (x, l) (by simp) hl
           refine ⟨u0, hu0, ?_⟩
-          simp only [bag_get_cons, hname.symm, if_true]
+          simp only [bag_get_cons]
           rw [hname, hx]; simp [cntI])
     omega
 
